@@ -23,7 +23,7 @@ LAMBDA_RULES = [
     (r"return PlannerTerminationCondition\(\[([^\]]*)\]\s*(?:\([^()]*\)\s*)?(?:mutable\s*)?\{", _lambda, 1),
     (r"\},\s*interval\);", "} PERIOD_USED = interval; }", 0),
     (r"\}\);", "} }", 0),
-    (r"return ([^;]+);", r"{ RES[k_] = (\1); continue; }", 1),
+    (r"return ([^;]+);", r"{ RES[k_] = (\1); continue; }", 0),
     (r"time::now\(\)", "time_now()", 0),
     (r"time::seconds\(", "time_seconds(", 0),
     (r"const time::point endTime\(([^;]+)\);", r"const TimeT endTime = (\1);", 0),
@@ -48,7 +48,7 @@ FLAGS = ["--bounds-check", "--pointer-check", "--signed-overflow-check", "--conv
 PFLAGS = ["--bounds-check", "--pointer-check", "--signed-overflow-check", "--conversion-check", "--div-by-zero-check"]
 
 IMPL_SOURCES = [
-    dict(name="eval", file=PTC, sig=r"\n\s+bool eval\(\) const", rules=[(r"\bfn_\(\)", "FN()", 1)], loops={}),
+    dict(name="eval", file=PTC, sig=r"\n\s+bool eval\(\) const", rules=[(r"\bfn_\(\)", "FN()", 0)], loops={}),
     dict(name="terminate", file=PTC, sig=r"\n\s+void terminate\(\) const", rules=[], loops={}),
 ]
 ITER_SOURCES = [
@@ -72,12 +72,12 @@ UNITS = [
          sources=[dict(name="processNewSolution", file=CCT,
                        sig=r"void ompl::base::CostConvergenceTerminationCondition::processNewSolution\(const ompl::base::Cost solutionCost\)",
                        rules=[(r"OMPL_DEBUG\([^;]*\);", "", 0),
-                              (r"std::min\(", "MIN_SZ(", 1),
-                              (r"solutionCost\.value\(\)", "solutionCost_value", 1),
-                              (r"\((\w+ - 1)\) \* (\w+)", r"FMUL((double)(\1), \2)", 1),
-                              (r"\(1\. ([-+]) (\w+)\) \* (\w+)", r"FMUL((1. \1 \2), \3)", 2),
-                              (r"\((FMUL\([^;]*?\) \+ [\w.()]+)\) / (\w+);", r"FDIV((\1), (double)(\2));", 1),
-                              (r"\bterminate\(\);", "do_terminate();", 1)],
+                              (r"std::min\(", "MIN_SZ(", 0),
+                              (r"solutionCost\.value\(\)", "solutionCost_value", 0),
+                              (r"\((\w+ - 1)\) \* (\w+)", r"FMUL((double)(\1), \2)", 0),
+                              (r"\(1\. ([-+]) (\w+)\) \* (\w+)", r"FMUL((1. \1 \2), \3)", 0),
+                              (r"\((FMUL\([^;]*?\) \+ [\w.()]+)\) / (\w+);", r"FDIV((\1), (double)(\2));", 0),
+                              (r"\bterminate\(\);", "do_terminate();", 0)],
                        loops={})],
          canaries=[dict(name="window_wrong_variable", where="body:processNewSolution", rx=r"solutions == solutionsWindow_", repl="solutions_ == solutionsWindow_"),
                    dict(name="threshold_from_new_average", where="body:processNewSolution", rx=r"averageCost_ = newCost;", repl="", defines={}),
